@@ -50,12 +50,34 @@ def make_ops(depth):
     return f
 
 
+def lookalike_jobs():
+    """Types whose members or alternatives contain a text AND what that text reads as (Literal['1', 1], str | int, an enum with values
+    '1' and 1, ...): every carrier of the text must pick the same one."""
+    lits = [["1", 1], [1, "1"], ["true", 1], ["True", True], ["None", None], ["null", None], ["1.0", 1], ["1", True], ["[1]", "x"],
+            ["0", False], ["null", "x"]]
+    ops = []
+    for vals in lits:
+        for s in [v for v in vals if isinstance(v, str)] + ["1", "null", "true"]:
+            lit = ["lit", vals]
+            for ts in (lit, ["union", [lit, ["none"]], {"sp": "optional"}], ["coll", "list", lit, {"sp": "builtin"}]):
+                v = s if ts[0] != "coll" else json.dumps([s])
+                ops.append({"op": "um", "ty": ts, "val": v, "obs": ["carriers"]})
+    jobs = [{"prog": {"classes": [], "aliases": {}}, "ops": ops}]
+    # one job (= one process) per union: two orders of one member set share the routine caches (finding unionOrderKey)
+    for ts in (["union", [["str"], ["int"]], {"sp": "typing"}], ["union", [["int"], ["str"]], {"sp": "pipe"}],
+               ["union", [["str"], ["none"]], {"sp": "optional"}], ["union", [["float"], ["str"], ["none"]], {"sp": "typing"}]):
+        jobs.append({"prog": {"classes": [], "aliases": {}},
+                     "ops": [{"op": "um", "ty": ts, "val": s, "obs": ["carriers"]} for s in ("1", "null", "true", "1.5", "None", " 7 ", "abc")]})
+    return jobs
+
+
 def explore(ctx):
     res = Result()
     res.rule = RULE
     depth = 2 if ctx.tier == "quick" else 3
     n = ctx.n(150, 2500)
     jobs = core.gen_jobs(ctx, n, "c14", dict(max_depth=depth, unions="any"), make_ops(depth))
+    jobs += lookalike_jobs()
     real, model = core.run_jobs(jobs)
     # second pass: text of real wire forms
     jobs2 = []
